@@ -148,6 +148,14 @@ claim("C04",
       "PgSem is a reading of the PostgreSQL manual (no server offline); jsonb numbers limited to the literals Go writes; RAISE WARNING ignored. Trusted: the script reader (any text outside the six templates is reported), the test binary driver.",
       "Coq proof (acceptance and refusal theorems under a computed agreement premise) + parsed-script correspondence + evaluation of real documents and their corruptions in Coq", "DESIGN.md §5 C04")
 
+claim("C05",
+      "Coq: the statements of the generated CRUD functions as a small SQL AST (Model/Crud.v: the parallel lists of newColumnsCode and the templates of primary_table.go, link_table.go, sql.go) with a meaning over one table (Sem/SqlStore.v: folded column names, serial id, NULL comparisons). "
+      "Theorems, for every table (any columns, id at any position, guards) with distinct folded names and every history: Insert returns the item with its id and stores it, Update replaces the item of that id only (WHERE id = $n), Select/Delete by id, ids, foreign key, unique columns or select key return (and remove) exactly the matching items, "
+      "histories of generated calls refine the list-of-items model, an inserted row comes back equal from the select by id, link tables append/remove links, every model statement carries placeholders $1..$n for n arguments. "
+      "On every run the real generated Go file is parsed (SQL text, argument expressions, scan destinations), compared function by function with the model, and every statement is checked in Coq against the schema parsed from the real SQL script (tables/columns exist up to case, written columns receive item.<their field>, unwritten columns have a default, result columns line up with scan destinations).",
+      "Partial: no SQL engine offline, so 'executes without SQL error' is decided by the static conditions above plus the store semantics of Sem/SqlStore.v (a reading of PostgreSQL for the emitted subset); column types and Scan/Value converters are not executed. Trusted: the Go-file and SQL readers (any statement outside the generated forms is reported).",
+      "Coq proof (refinement of the list-of-items model by the generated statements, unbounded histories) + parsed-statement correspondence + schema well-formedness evaluated in Coq", "DESIGN.md §5 C05")
+
 NOT_YET = "check not built yet in this round (planned, see DESIGN.md §6)"
 
 checks, na = [], []
